@@ -24,6 +24,21 @@ def parts (g : Graph) : String := "[" ++ ",".intercalate (g.nodes.map fun n => s
 
 def fields (l : List String) : String := " ; ".intercalate l
 
+/-- code points (surrogates excluded) satisfying `p`, as `a-b` ranges -/
+def charRanges (p : Char → Bool) : String := Id.run do
+  let mut out : Array String := #[]
+  let mut start : Option Nat := none
+  for n in [0:0x110000] do
+    let ok := !(0xD800 ≤ n && n ≤ 0xDFFF) && p (Char.ofNat n)
+    match start, ok with
+    | none, true => start := some n
+    | some a, false => out := out.push s!"{a}-{n - 1}"; start := none
+    | _, _ => pure ()
+  match start with
+  | some a => out := out.push s!"{a}-{0x10FFFF}"
+  | none => pure ()
+  return ",".intercalate out.toList
+
 def runOp : P String := do
   let op ← next
   match op with
@@ -117,6 +132,28 @@ def runOp : P String := do
     match parseAtomValueAssignments l atoms with
     | .ok r => pure ("[" ++ ",".intercalate (r.map fun (a, b) => s!"{a}:{b}") ++ "]")
     | .error e => pure (showErr e)
+  | "CHARCLASS" =>
+    pure (fields ["space=" ++ charRanges isPySpace, "break=" ++ charRanges isLineBreak,
+      "numspace=" ++ charRanges (fun c => foldChar c == ' ' || isCSpace (foldChar c)),
+      "digits=" ++ ",".intercalate ((List.range 10).map fun d =>
+        charRanges (fun c => foldChar c == Char.ofNat (48 + d)))])
+  | "INT" =>
+    let t ← str
+    match pyInt t with
+    | .ok v => pure (showInt v)
+    | .error e => pure (showErr e)
+  | "FLOATOK" =>
+    let t ← str
+    pure (if pyFloatOk t then "true" else "false")
+  | "SPLITLINES" =>
+    let t ← str
+    pure (showStrList (splitLines t))
+  | "RSTRIP" =>
+    let t ← str
+    pure (showStr (rstrip t))
+  | "SPLITWS" =>
+    let t ← str
+    pure (showStrList (splitWs t))
   | "COPY" =>
     let g ← graph
     pure (showGraph g.copy)
